@@ -87,6 +87,8 @@ def run(ctx):
         if "judge" not in kv:
             continue
         if cid.startswith("growth-"):
+            if ctx.replay and "fewer than two sizes" in kv["judge"]:
+                continue   # replay of a single (size, position) case: nothing to compare
             growth_n += 1
             if kv["judge"] != "ok" and not calibrate:
                 growth_bad += 1
